@@ -369,6 +369,8 @@ class SpecDB:
             for name in c.ensures:
                 if name in c.opts.get("no_export", ()):
                     continue
+                if str(c.opts.get("assumed", {}).get(name, "")).startswith("bounded"):
+                    continue              # run-time-only reading (bounded stand-in): nothing a caller's proof may use
                 if name in c.opts.get("assumed", {}):
                     I.assumed.add(f"assumed contract clause {c.qual.split('.')[-1]}.{name}: {c.opts['assumed'][name]}")
                 cl = self.clause(c, name)
@@ -994,10 +996,15 @@ def verify_function(db, modules, qual, bounded=False, sizes=None):
     c = db.get(qual)
     if c is None or c.params is None:
         raise EngineError(f"no contract for {qual}")
-    found = modules.find_function(qual)
-    if found is None:
-        raise EngineError(f"function {qual} not found in the repository")
-    fdef, modname, clsname = found
+    is_lemma = bool(c.opts.get("lemma"))
+    if is_lemma:
+        # a specification lemma: no code, `requires => ensures` for all values of the typed parameters (hints in between)
+        fdef, modname, clsname = ast.parse("def lemma():\n    pass").body[0], "contracts", None
+    else:
+        found = modules.find_function(qual)
+        if found is None:
+            raise EngineError(f"function {qual} not found in the repository")
+        fdef, modname, clsname = found
     import pyvc.core as _core
     _core.reset_fresh()
     _OPAQUE.clear()
@@ -1040,6 +1047,19 @@ def verify_function(db, modules, qual, bounded=False, sizes=None):
         if c.opts.get("program_point_invariant"):
             I.pp_inv = (db, c, c.opts["program_point_invariant"], pre_env)
         combo_tag = ",".join(f"{p}:{t.tag}" for p, t in combo if len(db.alternatives(c.params[p])) > 1)
+        if is_lemma:
+            I.canary(st, "canary-return", "lemma")
+            for name in c.ensures:
+                I.oblige(st, db.eval_clause(I, st, db.clause(c, name), pre_env), "ensures", name, "lemma",
+                         assume=name not in c.opts.get("no_export", ()))
+            res.paths += 1
+            res.returns += 1
+            for o in I.obligations:
+                o.lemmas = list(c.opts.get("lemmas", []))
+            res.obligations.extend(I.obligations)
+            res.assumed |= I.assumed
+            res.lemmas_used = set(c.opts.get("lemmas", [])) | set(I.lemmas_applied) | getattr(res, "lemmas_used", set())
+            continue
         outs = I.exec_block(fdef.body, st)
         for s, ctl in outs:
             res.paths += 1
